@@ -7,9 +7,11 @@ rows = []
 for d in sorted(glob.glob(os.path.join(HERE, "seeded", "C*-*m[0-9]"))):
     mid = os.path.basename(d)
     ev = os.path.join(d, "eval.txt")
-    if not os.path.exists(ev):
+    txt = open(ev).read() if os.path.exists(ev) else ""
+    ft_path = os.path.join(d, "eval_target_final.txt")
+    fttxt = open(ft_path).read() if os.path.exists(ft_path) else ""
+    if not txt and not fttxt and not os.path.exists(os.path.join(d, "eval_first_pass.txt")):
         continue
-    txt = open(ev).read()
     fp_path = os.path.join(d, "eval_first_pass.txt")
     fptxt = open(fp_path).read() if os.path.exists(fp_path) else ""
     demo_clean = re.search(r"demo clean rc=(\d+)", txt) or re.search(r"demo clean rc=(\d+)", fptxt)
@@ -21,9 +23,24 @@ for d in sorted(glob.glob(os.path.join(HERE, "seeded", "C*-*m[0-9]"))):
         first = {"caught_by": fc, "caught_by_target_check": mid.split("-")[0] in fc}
     judged = open(os.path.join(d, "judgement.txt")).read().strip() if os.path.exists(os.path.join(d, "judgement.txt")) else None
     caught = {}
-    for m in re.finditer(r"^(C\d+) rc=(\d+) violations=(\d+) ?(.*)$", txt, re.M):
-        if m.group(2) == "1":
-            caught[m.group(1)] = m.group(4).split("|")[0][:140]
+    for src in (fptxt if 'fptxt' in dir() else "", txt):
+        pass
+    earlier = {}
+    for src_txt in (open(os.path.join(d, "eval_first_pass.txt")).read() if os.path.exists(os.path.join(d, "eval_first_pass.txt")) else "", txt):
+        for m in re.finditer(r"^(C\d+) rc=(\d+) violations=(\d+) ?(.*)$", src_txt, re.M):
+            if m.group(2) == "1":
+                earlier[m.group(1)] = m.group(4).split("|")[0][:140]
+    target_ = mid.split("-")[0]
+    final_target = None
+    for m in re.finditer(r"^(C\d+) rc=(\d+) violations=(\d+) ?(.*)$", fttxt, re.M):
+        if m.group(1) == target_:
+            final_target = {"rc": int(m.group(2)), "first_signature": m.group(4).split("|")[0][:160]}
+    caught = dict(earlier)
+    if final_target is not None:
+        # the final harness decides the target column; the other columns come from the all-20 runs with earlier harness versions
+        caught.pop(target_, None)
+        if final_target["rc"] == 1:
+            caught[target_] = final_target["first_signature"]
     thorough = {}
     if os.path.exists(os.path.join(d, "eval_thorough.txt")):
         for m in re.finditer(r"^(C\d+) rc=(\d+) violations=(\d+) ?(.*)$", open(os.path.join(d, "eval_thorough.txt")).read(), re.M):
@@ -45,6 +62,7 @@ for d in sorted(glob.glob(os.path.join(HERE, "seeded", "C*-*m[0-9]"))):
                       "demo_fails_with_patch": bool(demo_patched and demo_patched.group(1) != "0"),
                       "repository_suite_with_patch": suite.group(1) if suite else old.get("confirmed", {}).get("repository_suite_with_patch", "not re-run")},
         "what_was_run": "tools/eval_mutant.sh seeded/%s/patch.diff seeded/%s/demo.py  (scratch worktree of /repo HEAD; demo on clean and patched tree; repository suite on patched tree; quick tier of all 20 checks with SYNAPGRAD_ROOT=<patched worktree>)" % (mid, mid),
+        "final_harness_target_check": final_target,
         "caught_by_quick_tier": caught,
         "caught_by_target_check": target in caught,
         "caught_by_thorough_tier_only": thorough,
@@ -54,7 +72,9 @@ for d in sorted(glob.glob(os.path.join(HERE, "seeded", "C*-*m[0-9]"))):
     json.dump(meta, open(mp, "w"), indent=1)
     rows.append(meta)
 with open(os.path.join(HERE, "seeded", "MATRIX.md"), "w") as f:
-    f.write("# Seeded changes x checks (quick tier)\n\n`T` = caught by the check of the property the change was written against, `x` = caught by another check, `t*` = caught by that check's thorough tier only.\n\n")
+    f.write("# Seeded changes x checks (quick tier)\n\n`T` = caught by the check of the property the change was written against (final harness, `eval_target_final.txt`), "
+            "`x` = caught by another check (from the all-twenty runs: `eval.txt` for rounds 1-2 with the harness after round 2, `eval_first_pass.txt` for rounds 3-4 with the harness "
+            "frozen before each round - the final harness was only re-run on the target check), `t*` = caught by that check's thorough tier only.\n\n")
     ids = sorted(props)
     f.write("| change | demo ok | suite | " + " | ".join(i[1:] for i in ids) + " |\n|---|---|---|" + "---|" * len(ids) + "\n")
     for r in rows:
